@@ -79,6 +79,7 @@ def make_man_class():
                              "delivered_at_ix": None, "parent": None})
             completed = False
             transport = getattr(self._spa, "_transport", None)   # the endpoint of the connection this reset abandons
+            conn_tasks = [t for t in self._tasks if not t.done() and not t.get_name().startswith(("SPAMAN:", "ASYNC:"))] if self._spa is not None else []
             try:
                 await super().async_reset()
                 completed = True
@@ -86,7 +87,13 @@ def make_man_class():
                 self.pre.append({"t": self.world.clock.t, "event": None, "before": self._spa_state,
                                  "facade_before": self._facade is not None, "task": (task.get_name() if task else "?") + ":reset-end",
                                  "ix": len(self.pre), "delivered_state": None, "delivered_at_ix": None, "parent": None})
-                self.resets.append({"t0": t0, "t1": self.world.clock.t, "state": self._spa_state,
+                rec_ = {"alive_after": None}
+                if completed and conn_tasks:
+                    # every task of the abandoned connection - also the one that ran this reset - ends promptly
+                    def look(rec_=rec_, conn_tasks=conn_tasks):
+                        rec_["alive_after"] = sorted(t.get_name() for t in conn_tasks if not t.done())
+                    self.world.loop.call_at_exact(self.world.clock.t + 0.35, look)
+                self.resets.append({"t0": t0, "t1": self.world.clock.t, "state": self._spa_state, "late": rec_,
                                     "facade": self._facade is not None, "spa": self._spa is not None,
                                     "descriptors": self._spa_descriptors is not None, "completed": completed,
                                     "task": task.get_name() if task else "?", "transport": transport})
